@@ -89,6 +89,9 @@ func (h *c10H) hn(bh restic.BlobHandle) int {
 func (h *c10H) fileData(kind int) []byte {
 	sizes := []int{0, 1, 100, 4096, 30000, 70000, 200000, 700000}
 	n := sizes[h.rng.intn(len(sizes))]
+	if n > 100000 && !h.c.thorough() {
+		n = 5000 + h.rng.intn(40000)
+	}
 	if n > 100000 && h.rng.chance(60) {
 		n = 5000 + h.rng.intn(40000)
 	}
@@ -876,6 +879,9 @@ func (h *c10H) build(kind string) error {
 	}
 	prev := ""
 	nb := 2 + h.rng.intn(3)
+	if !h.c.thorough() {
+		nb = 2
+	}
 	for i := 0; i < nb; i++ {
 		var extra []string
 		if h.rng.chance(25) {
@@ -886,7 +892,7 @@ func (h *c10H) build(kind string) error {
 		if err != nil {
 			return err
 		}
-		if kind == "dup" && i == 0 {
+		if (kind == "dup" || kind == "dup-unindexed") && i == 0 {
 			// same content again while its index is hidden: every blob gets a second copy
 			back := h.hideNewIndexes(before)
 			if _, err := h.backup(sn.src); err != nil {
@@ -911,7 +917,7 @@ func (h *c10H) build(kind string) error {
 		}
 	}
 	switch kind {
-	case "unindexed":
+	case "unindexed", "dup-unindexed":
 		before := h.idxFiles()
 		sn, err := h.backup("")
 		if err != nil {
